@@ -47,7 +47,7 @@ for p in props:
     })
 man = {
     "version": 1,
-    "setup_cmd": "cd lean && lake build Scico Drv",
+    "setup_cmd": "./setup.sh",
     "hooks": {
         "guard": "SCICO_VERIF",
         "enable": "no instrumentation of scico is needed; checks set SCICO_VERIF=1 for uniformity (no code in /repo reads it)",
